@@ -8,6 +8,7 @@ import GontainerModel.Model.Runtime
 import GontainerModel.Model.Emit
 import GontainerModel.Generated.Template
 import GontainerModel.Generated.Wiring
+import GontainerModel.Lemmas.Rank
 namespace GM.C02
 open GM GM.Compile
 
@@ -42,6 +43,13 @@ theorem resolve_classifies (v : Val) :
   by_cases h2 : Re.acceptsPrefix (Re.cls [(64, 64)]) s.toList = true <;>
   by_cases h3 : Re.acceptsPrefix Rx.prefixTagged s.toList = true <;>
   by_cases h4 : (s == specialGontainerID) = true <;> simp [h1, h2, h3, h4] <;> simpa using h4
+
+/-- **the resolvers record what the runtime will fetch**: an argument the wired chain resolves keeps its declared value, and an
+`@service` / `!tagged` argument records the service / tag it names as its dependency — the fact the run-time history theorems
+(C05) assume of a compiled configuration (`Runtime.ArgsRecorded`) -/
+theorem resolve_records_dependency (fns : List Token.FnDef) (st st' : Imports.St) (v : Val) (a : Output.Arg)
+    (h : Compile.resolve Compile.argChain fns st v = (st', .ok a)) : a.raw = v ∧ Runtime.ArgWF a :=
+  Runtime.resolve_records_dependency fns st st' v a h
 
 /-- **arguments keep their order**: when `resolveArgs` reports no error, the compiled arguments are
 the declared ones, one for one, in the declared order -/
